@@ -13,8 +13,8 @@ META = dict(
 
 
 def run(ctx):
-    maxl, both = ctx.pick((3, "FALSE"), (4, "TRUE"))
-    r = ctx.tlc_mc("wire", "BodyStreamGen", "BodyStreamGen.cfg", consts={"MAXL": maxl, "BOTH": both},
+    maxl = ctx.pick(3, 5)
+    r = ctx.tlc_mc("wire", "BodyStreamGen", "BodyStreamGen.cfg", consts={"MAXL": maxl},
                    workers=8, timeout=1200, heap="6g")
     path = os.path.join(r["dir"], "vectors.ndjson")
     if not os.path.exists(path):
@@ -27,6 +27,5 @@ def run(ctx):
                 "live client, StreamWriter) at one fault offset; non-trivial = fault, panic, size mismatch, multi-read chunking or a later replace/reset")
     ctx.assumptions = ["content length 0..%d, every composition of it as Read sizes, last data with/without io.EOF" % maxl,
                        "declared size = / -1 / +1 / unknown; closer none / io.Closer / Closer+CloseWithError (responses)",
-                       "writer fault while head / body / trailer is written (every byte offset of that phase); panic in any Read call"
-                       + ("; fault and panic combined" if both == "TRUE" else ""),
+                       "writer fault while head / body / trailer is written (byte offsets of that phase) or a panic in any Read call; not both in one scenario",
                        "owner afterwards: released / Reset / SetBody"]
